@@ -383,9 +383,10 @@ def execute(case):
     try:
         with contextlib.redirect_stdout(buf):
             tolkw = {} if case.get('tolx') == 'default' else {'tolx': TOLX}
-            pym.minimize_mma(net, sigs, outs, verbosity=0, maxit=int(case.get('maxit', MAXIT)), move=spec(move_spec),
+            user_args = {'move': spec(move_spec), 'xmin': spec(xmin_spec), 'xmax': spec(xmax_spec)}
+            pym.minimize_mma(net, sigs, outs, verbosity=0, maxit=int(case.get('maxit', MAXIT)), move=user_args['move'],
                              **tolkw,
-                             xmin=spec(xmin_spec), xmax=spec(xmax_spec), mmaversion=case['version'],
+                             xmin=user_args['xmin'], xmax=user_args['xmax'], mmaversion=case['version'],
                              asyinit=asyinit, asyincr=asyincr, asydecr=asydecr, albefa=albefa, epsimin=EPSIMIN,
                              fn_callback=callback, **extra)
     except _Truncate as e:
@@ -416,6 +417,12 @@ def execute(case):
 
     def flat(states):
         return np.concatenate([np.atleast_1d(np.asarray(v, float)).ravel() for v in states])
+
+    # the bound / move-limit arrays handed in are the caller's (he may pass them to the next run): not modified
+    for nm_, orig_ in (('move', move_spec), ('xmin', xmin_spec), ('xmax', xmax_spec)):
+        if isinstance(orig_, np.ndarray) and truncated[0] is None:
+            chk(np.array_equal(user_args[nm_], orig_), 'argument_modified', {'argument': nm_},
+                given=orig_, after_the_run=user_args[nm_])
 
     if sigkind == 'slice':
         rest = np.asarray(basesig.state)[[0, n + 1, n + 2]]
